@@ -12,6 +12,7 @@ Line protocol for the whole-stack model (component `stack` of the driver; statef
       -> calls=<ops|ops|…> sent=[…] recv=<as `chan recv`> polled=[…] tcp=<list> pub=<round|none> st=<state> fin=<0|1>
        | err <kind> | panic | dead
   stack itq <as it>    -> calls=… pub=… | finished | err <kind> | panic | dead    (closed-loop run)
+  stack clear          -> ok | dead       (`Tracer::clear`)
   stack dump
       -> <`agg dump`> error=<kind|->
 -/
@@ -20,6 +21,7 @@ open TV TV.Strat
 
 structure DSt where
   cur : Option (Cfg × St Float) := none
+  acfg : Agg.Cfg := { maxSamples := 0, maxFlows := 0 }
   /-- the state kept for `dump` after the run has ended with an error -/
   last : Option (St Float) := none
 
@@ -43,9 +45,10 @@ def handle (d : DSt) (args : List String) : DSt × String :=
       let r := run (F := Float) { strat := c, conn := k, agg := { maxSamples := ms, maxFlows := mf } } t0 []
       match r.ended, r.state with
       | some (.err e), _ => ({ cur := none, last := none }, "err " ++ Chan.showErr e)
-      | some .panic, _ => ({ cur := none, last := none }, "panic")
-      | _, some st => ({ cur := some (c, st), last := some st }, "ok " ++ Chan.showList Chan.showConnOp r.connOps ";")
-      | _, none => ({ cur := none, last := none }, "panic")
+      | some .panic, _ => ({ d with cur := none, last := none }, "panic")
+      | _, some st => ({ cur := some (c, st), last := some st, acfg := { maxSamples := ms, maxFlows := mf } },
+          "ok " ++ Chan.showList Chan.showConnOp r.connOps ";")
+      | _, none => ({ d with cur := none, last := none }, "panic")
     | _, _, _, _ => (d, "bad-op")
   | ["it", injs, dt, rd, dg, envs] =>
     match parseInjs injs, dt.toNat?, Chan.parsePoll rd, Chan.parseDgram dg, Chan.parseEnvList envs with
@@ -56,10 +59,10 @@ def handle (d : DSt) (args : List String) : DSt × String :=
         match iter c st { injs := injs, dt := dt, recv := { readable := rd, dgram := dg, tcp := envs } } with
         | .ok (st', o) =>
           let pub := match o.published with | none => "none" | some r => showRound r
-          ({ cur := some (c, st'), last := some st' },
+          ({ d with cur := some (c, st'), last := some st' },
            s!"calls={showCalls o.calls} sent=[{showSent o.sent}] recv={Wire.showRecv (.ok o.recv)} polled=[{Chan.showPolled o.polled}] tcp={Chan.showTcp st'.chan.tcp} pub={pub} st={showState c st'.ts}")
-        | .err e => ({ cur := none, last := some { st with error := some e } }, "err " ++ Chan.showErr e)
-        | .panic => ({ cur := none, last := none }, "panic")
+        | .err e => ({ d with cur := none, last := some { st with error := some e } }, "err " ++ Chan.showErr e)
+        | .panic => ({ d with cur := none, last := none }, "panic")
     | _, _, _, _, _ => (d, "bad-op")
   | ["itq", injs, dt, rd, dg, envs] =>
     -- the closed-loop run: only what can be observed from outside (socket calls, published round)
@@ -72,10 +75,16 @@ def handle (d : DSt) (args : List String) : DSt × String :=
         match iter c st { injs := injs, dt := dt, recv := { readable := rd, dgram := dg, tcp := envs } } with
         | .ok (st', o) =>
           let pub := match o.published with | none => "none" | some r => showRound r
-          ({ cur := some (c, st'), last := some st' }, s!"calls={showCalls o.calls} pub={pub}")
-        | .err e => ({ cur := none, last := some { st with error := some e } }, "err " ++ Chan.showErr e)
-        | .panic => ({ cur := none, last := none }, "panic")
+          ({ d with cur := some (c, st'), last := some st' }, s!"calls={showCalls o.calls} pub={pub}")
+        | .err e => ({ d with cur := none, last := some { st with error := some e } }, "err " ++ Chan.showErr e)
+        | .panic => ({ d with cur := none, last := none }, "panic")
     | _, _, _, _, _ => (d, "bad-op")
+  | ["clear"] =>
+    -- `Tracer::clear` from another thread, between two iterations
+    match d.cur, d.last with
+    | some (c, st), _ => let st' := clear d.acfg st; ({ d with cur := some (c, st'), last := some st' }, "ok")
+    | none, some st => ({ d with last := some (clear d.acfg st) }, "ok")
+    | none, none => (d, "dead")
   | ["dump"] =>
     match d.last with
     | none => (d, "dead")
